@@ -1564,6 +1564,9 @@ def c08_r8_flush_keeps_page(ctx):
     for wp in w:
         ctx.must_pass(f, ins, start=wp, exits='any', extra_cut_edges=e_ok | core.guard_edges(f, [Guard(call='LRUWriteCache::pop_lowest_priority', vals={'None'})]),
                       what='after a failed write the page is re-inserted before the function returns')
+    # ... and the failure is reported: the accounting of a written page is only reached when the write succeeded
+    fs = ctx.atomic_sites(f, 'fetch_sub', 'self.write_buffer_bytes', exact=1)
+    ctx.guarded(f, fs, [ok(CB + '::write'), ok(CB + '::write_best_effort'), Guard(place='result', vals={'Ok'})], 'a failed write-back propagates: the page is not accounted as written')
     # write_best_effort only on the BestEffort arm
     be = [p for p in w if p.call.matches(CB + '::write_best_effort')]
     ctx.guarded(f, be, [Guard(place='writeback', vals={'BestEffort'})], 'non-latching write only for best-effort write-back')
